@@ -37,3 +37,9 @@ pub broadcast group group_bytes_order {
 
 pub assume_specification [ Ordering::is_eq ] (o: Ordering) -> (r: bool)
     ensures r == (o == Ordering::Equal);
+
+// ASSUMED (A-std): comparison of Rc<T> values is comparison of the pointees.
+pub axiom fn axiom_rc_obeys_cmp<T: PartialOrd>()
+    ensures <std::rc::Rc<T> as PartialOrdSpec>::obeys_partial_cmp_spec() == <T as PartialOrdSpec>::obeys_partial_cmp_spec();
+pub broadcast axiom fn axiom_rc_partial_cmp<T: PartialOrd>(a: &std::rc::Rc<T>, b: &std::rc::Rc<T>)
+    ensures #[trigger] PartialOrdSpec::partial_cmp_spec(a, b) == PartialOrdSpec::partial_cmp_spec(&**a, &**b);
